@@ -365,6 +365,7 @@ func runPath(cfg *Config, fn *ssa.Function, prefix []decision, solver, second *s
 		model:      map[string]uint64{},
 		wantWitness: cfg.Witnesses > 0,
 		crossCheck:  cfg.CrossCheck,
+		rewound:     -1,
 	}
 	solver.Reset()
 	before := solver.Stats
